@@ -624,7 +624,8 @@ class C07(PropBase):
                 fn = funs[fi]
                 F = fn["lo"] + fn["sv"] + gcps
                 if j + 1 < depth:
-                    ra = MODBASE + funs[acts[j + 1]]["base"] + 0x20 + 4 * j
+                    # 1 in 5: the call is the caller's last instruction, so the return address is one past its function / record
+                    ra = MODBASE + funs[acts[j + 1]]["base"] + (256 if rng.chance(1, 5) else 0x20 + 4 * j)
                 else:
                     ra = 100 if rng.chance(1, 6) else MODBASE + 0xF010
                 off = esp + F - ESP
